@@ -204,7 +204,7 @@ def run(ctx):
                 return [NULL, PTR("ret:" + cal)]
             return None
         ex = absint.Explorer(prog, effects=eff, inline=lambda nm, dd: dd.file in files, on_unknown_call=unk,
-                             max_depth=2, loop_bound=2, max_paths=50000)
+                             max_depth=2, loop_bound=2, max_paths=50000, auto_inline=False)
         combos = [(0, 0, 0), (0, 1, 0), (1, 1, 0), (0, 0, 1), (0, 1, 1), (1, 1, 1)]
         for e in m.events:
             cv = e.mcv
